@@ -59,55 +59,57 @@ Section Sem.
   Variable f : fflow.
   Variable sc : scenario.
 
+  (* one task, given the values of the types *)
+  Definition task_step (tv : nat -> option term) (k : nat) : tres :=
+    let tk := nth k (gtasks f) ktask0 in
+    let fallback_outs := map (fun i => TmFall k i) (seq 0 (length (kouts tk))) in
+    let zero_outs := map (fun _ => TmZero) (kouts tk) in
+    let with_args (pc : option (list term)) (k_ok : list term -> tres) : tres :=
+      match all_some (map tv (kins tk)) with
+      | None => RBlocked pc
+      | Some args => k_ok args
+      end in
+    let run_task (pc : option (list term)) (args : list term) :=
+      match sc_task sc k with
+      | OOK => ROuts (map (fun i => TmOut k i args) (seq 0 (length (kouts tk)))) pc (Some args)
+      | OERR => if kfallback tk then ROuts fallback_outs pc (Some args) else RFail (FErr k) pc (Some args)
+      | OPANIC => if kfallback tk then ROuts fallback_outs pc (Some args) else RFail (FPanic k) pc (Some args)
+      end in
+    match kpred tk with
+    | None => with_args None (run_task None)
+    | Some pins =>
+        (* the predicate is a job of its own: it runs as soon as its own inputs exist *)
+        match all_some (map tv pins) with
+        | None => RBlocked None
+        | Some pargs =>
+            with_args (Some pargs) (fun args =>
+              match sc_pred sc k with
+              | PTRUE => run_task (Some pargs) args
+              | PFALSE => ROuts zero_outs (Some pargs) None
+              | PPANIC => if kfallback tk then ROuts fallback_outs (Some pargs) None
+                          else RFail (FPredPanic k) (Some pargs) None
+              end)
+        end
+    end.
+
+  (* one type, given the results of the tasks *)
+  Definition val_step (tr : nat -> tres) (t : nat) : option term :=
+    match gprov f t with
+    | Some (k, i) => match tr k with ROuts outs _ _ => nth_error outs i | _ => None end
+    | None => if existsb (Nat.eqb t) (gparams f) then Some (TmParam t) else None
+    end.
+
   (* value of a type and result of a task, by recursion over the provider graph;
-     fuel bounds the depth (number of tasks + 1 suffices for accepted flows) *)
+     fuel bounds the depth (two levels per task) *)
   Fixpoint tval (fuel : nat) (t : nat) : option term :=
     match fuel with
     | 0 => None
-    | S fuel' =>
-        match gprov f t with
-        | Some (k, i) =>
-            match tresult fuel' k with
-            | ROuts outs _ _ => nth_error outs i
-            | _ => None
-            end
-        | None => if existsb (Nat.eqb t) (gparams f) then Some (TmParam t) else None
-        end
+    | S fuel' => val_step (tresult fuel') t
     end
   with tresult (fuel : nat) (k : nat) : tres :=
     match fuel with
     | 0 => RBlocked None
-    | S fuel' =>
-        let tk := nth k (gtasks f) ktask0 in
-        let fallback_outs := map (fun i => TmFall k i) (seq 0 (length (kouts tk))) in
-        let zero_outs := map (fun _ => TmZero) (kouts tk) in
-        let with_args (pc : option (list term)) (k_ok : list term -> tres) : tres :=
-          match all_some (map (tval fuel') (kins tk)) with
-          | None => RBlocked pc
-          | Some args => k_ok args
-          end in
-        let run_task (pc : option (list term)) (args : list term) :=
-          match sc_task sc k with
-          | OOK => ROuts (map (fun i => TmOut k i args) (seq 0 (length (kouts tk)))) pc (Some args)
-          | OERR => if kfallback tk then ROuts fallback_outs pc (Some args) else RFail (FErr k) pc (Some args)
-          | OPANIC => if kfallback tk then ROuts fallback_outs pc (Some args) else RFail (FPanic k) pc (Some args)
-          end in
-        match kpred tk with
-        | None => with_args None (run_task None)
-        | Some pins =>
-            (* the predicate is a job of its own: it runs as soon as its own inputs exist *)
-            match all_some (map (tval fuel') pins) with
-            | None => RBlocked None
-            | Some pargs =>
-                with_args (Some pargs) (fun args =>
-                  match sc_pred sc k with
-                  | PTRUE => run_task (Some pargs) args
-                  | PFALSE => ROuts zero_outs (Some pargs) None
-                  | PPANIC => if kfallback tk then ROuts fallback_outs (Some pargs) None
-                              else RFail (FPredPanic k) (Some pargs) None
-                  end)
-            end
-        end
+    | S fuel' => task_step (tval fuel') k
     end.
 
   Definition fuel_of : nat := S (S (2 * length (gtasks f))).
